@@ -7,7 +7,7 @@
     depth-first search below.  The correspondence check compares rewrite results and node
     counts with the implementation. *)
 From Vib Require Import Model.Base Model.Text.
-Open Scope N_scope.
+Local Open Scope N_scope.
 
 Inductive pattern :=
 | PAny
@@ -141,11 +141,7 @@ Definition parse_rw (p : str) : result rw :=
   | [] => Ok (RText p)
   end.
 
-Fixpoint mapM {A B} (f : A -> result B) (l : list A) : result (list B) :=
-  match l with
-  | [] => Ok []
-  | x :: t => do y <- f x ;; do ys <- mapM f t ;; Ok (y :: ys)
-  end.
+Definition mapM {A B} := @mapM_r A B.
 
 (** [parse_rewrite_rule] + the parsing part of [add_rule].  In Rust the pattern columns are
     parsed (and may panic) before the rewrite columns. *)
